@@ -1,5 +1,7 @@
 import RedisVerif.Model.AntiEntropy
 import RedisVerif.Lemmas.AntiEntropy
+import RedisVerif.Lemmas.AEBytes
+import RedisVerif.Lemmas.Ring
 import RedisVerif.Props.C07
 
 /-!
@@ -809,6 +811,290 @@ theorem effective_limit_pos (limit : Nat) : 1 ≤ effectiveLimit true limit ∧ 
     show max limit 1 = limit
     exact Nat.max_eq_left h
 
+/-! ## the bytes fed to SipHash: the `Ideal` assumption is about the 64-bit hash function alone
+
+`Hasher` abstracts three uses of `DefaultHasher`; `sipHasher sip kb` derives all three from ONE
+byte-stream hash `sip` and the byte streams the code builds (`byteStream`: what `canonical_hash`
+writes; a key's bytes + `0xff`; `u64` words little-endian).  The driver instantiates `sip` with
+`Sip.sip13` (SipHash-1-3, zero key) and compares every key hash, value hash, bucket hash and root
+hash with the real ones; the theorems hold for every collision-free `sip`. -/
+
+/-- SipHash-1-3 test vectors (`DefaultHasher::new(); write(bytes); finish()`), kernel-evaluated -/
+theorem sip13_test_vectors :
+    Sip.sip13 [] = 15130871412783076140 ∧ Sip.sip13 [1] = 4952851536318644461
+    ∧ Sip.sip13 [1, 2, 3, 4, 5, 6, 7] = 12812043627018688250
+    ∧ Sip.sip13 [1, 2, 3, 4, 5, 6, 7, 8] = 9821449770987577264
+    ∧ Sip.sip13 (List.range 20) = 7178233520606413056 := by
+  decide
+
+/-- every value of the state is canonical and its strings are UTF-8 (no `0xff` byte) -/
+def ValuesOK (kb : Nat → List Nat) (s : NMap RV) : Prop := ∀ p ∈ s, p.2.WF ∧ StrSafe kb p.2
+
+instance (kb : Nat → List Nat) : DecidablePred (ValuesOK kb) := fun s => by unfold ValuesOK; infer_instance
+
+/-- **C18 (the byte stream is uniquely decodable)**: two canonical UTF-8 values that differ
+    anywhere — stamp, kind, any register / field / count / element / tag, vector clock, expiry,
+    replication factor — feed different BYTES to the value hasher.  A change of `canonical_hash`
+    that makes the stream ambiguous (two variable-length parts without a length or terminator
+    between them, a dropped field, an unsorted container) breaks this theorem once the model
+    follows the code, and the model must follow: `sip13 (byteStream v)` is compared with the real
+    `value_hash` for every value of every run. -/
+theorem byte_stream_injective (kb : Nat → List Nat) (hkb : KbInj kb) (v w : RV) (hv : v.WF) (hw : w.WF)
+    (sv : StrSafe kb v) (sw : StrSafe kb w) (h : byteStream kb v = byteStream kb w) : v = w :=
+  byteStream_inj hkb hv hw sv sw h
+
+/-- … `StrSafe` is necessary: strings are `0xff`-terminated, not length-prefixed (unreachable
+    with Rust `String`s, which are UTF-8) -/
+theorem byte_stream_ff_ambiguous :
+    ffA ≠ ffB ∧ ffA.WF ∧ ffB.WF ∧ byteStream HB.keyStr ffA = byteStream HB.keyStr ffB
+    ∧ ¬ StrSafe HB.keyStr ffA :=
+  byteStream_ff_ambiguous
+
+/-- the driver's string decoder is injective -/
+theorem key_str_injective : KbInj HB.keyStr := keyStr_inj
+
+/-- … and inverts the codec of the drivers: the bytes the model hashes for a key (an element, a
+    field name) ARE that string's bytes -/
+theorem key_str_inverts_code (b : List Nat) (hb : ∀ x ∈ b, x < 256) : HB.keyStr (HB.code b) = b := keyStr_code hb
+
+/-- the key order the driver runs `get_keys_in_buckets` with — byte-wise `String::cmp` on the
+    decoded keys — satisfies the `TotalOrder` hypothesis of `sim_response_order_independent` and
+    `sim_round_order_independent` -/
+theorem key_order_total : TotalOrder (fun a b => HB.bytesLe (HB.keyStr a) (HB.keyStr b)) := totalOrder_keyLe
+
+/-- **the three-use `Ideal` assumption follows from an ideal byte hash** -/
+theorem ideal_sip_hasher (sip : List Nat → Nat) (kb : Nat → List Nat) (hs : SipIdeal sip) (hkb : KbInj kb) :
+    Ideal (sipHasher sip kb) := ideal_sipHasher hs hkb
+
+theorem proj_byteStream_inj {kb : Nat → List Nat} (hkb : KbInj kb) {s t : NMap RV}
+    (hs : ValuesOK kb s) (ht : ValuesOK kb t) (h : proj (byteStream kb) s = proj (byteStream kb) t) : s = t := by
+  unfold proj at h
+  induction s generalizing t with
+  | nil =>
+    cases t with
+    | nil => rfl
+    | cons _ _ => simp at h
+  | cons p ps ih =>
+    cases t with
+    | nil => simp at h
+    | cons q qs =>
+      simp only [List.map_cons, List.cons.injEq, Prod.mk.injEq] at h
+      obtain ⟨⟨hk, hp⟩, hrest⟩ := h
+      have h1 := hs p List.mem_cons_self
+      have h2 := ht q List.mem_cons_self
+      rw [ih (fun x hx => hs x (List.mem_cons_of_mem _ hx)) (fun x hx => ht x (List.mem_cons_of_mem _ hx)) hrest]
+      congr 1
+      exact Prod.ext hk (byteStream_inj hkb h1.1 h2.1 h1.2 h2.2 hp)
+
+/-- **C18 (equal digests iff equal states), at the level of the bytes hashed**: for every
+    collision-free 64-bit byte hash `sip` (never `0`), the digests the code computes — key hash =
+    `sip(key bytes, 0xff)`, value hash = `sip(canonical_hash's bytes)`, bucket / root hashes =
+    `sip(little-endian words)` — are equal iff the states are, for canonical UTF-8 states of any
+    size, any CRDT kinds, any two iteration orders, any depth. -/
+theorem digest_iff_state_eq_bytes (sip : List Nat → Nat) (kb : Nat → List Nat) (hsip : SipIdeal sip)
+    (hkb : KbInj kb) (depth : Nat) (π π' : List Nat) (s t : NMap RV)
+    (hs : NMap.WF s) (ht : NMap.WF t) (vs : ValuesOK kb s) (vt : ValuesOK kb t)
+    (hπ : ValidOrder π s) (hπ' : ValidOrder π' t) :
+    differsFrom (fromState (sipHasher sip kb) true (byteStream kb) depth π s)
+      (fromState (sipHasher sip kb) true (byteStream kb) depth π' t) = false ↔ s = t := by
+  rw [digest_complete (sipHasher sip kb) (byteStream kb) depth π π' s t (ideal_sipHasher hsip hkb)
+    (streamOK_byteStream kb) hs ht hπ hπ']
+  constructor
+  · exact proj_byteStream_inj hkb vs vt
+  · intro h; rw [h]
+
+/-- … in particular for the stream and the string decoder of the current tree (`AE.digest` with
+    `sipHasher sip HB.keyStr`; the driver runs it with `sip = Sip.sip13`) -/
+theorem digest_iff_state_eq_current (sip : List Nat → Nat) (hsip : SipIdeal sip) (depth : Nat)
+    (π π' : List Nat) (s t : NMap RV) (hs : NMap.WF s) (ht : NMap.WF t)
+    (vs : ValuesOK HB.keyStr s) (vt : ValuesOK HB.keyStr t) (hπ : ValidOrder π s) (hπ' : ValidOrder π' t) :
+    differsFrom (digest (sipHasher sip HB.keyStr) depth π s) (digest (sipHasher sip HB.keyStr) depth π' t) = false
+      ↔ s = t :=
+  digest_iff_state_eq_bytes sip HB.keyStr hsip keyStr_inj depth π π' s t hs ht vs vt hπ hπ'
+
+/-- a collision-free byte hash that never returns `0` (non-vacuity of `SipIdeal`) -/
+def idealSip : List Nat → Nat := fun l => enc l + 1
+
+theorem sipIdeal_idealSip : SipIdeal idealSip :=
+  ⟨fun a b h => enc_inj a b (by unfold idealSip at h; omega), fun a => by unfold idealSip; omega⟩
+
+/-- the two sides must be configured with the SAME `merkle_tree_depth`: digests of different depth
+    never compare equal for non-trivial equal states (the root folds a different bucket list) — the
+    exchange still merges (the size-mismatch branch of `divergent_buckets` reports every non-empty
+    extra bucket; exercised by the three-manager sessions), but "in sync" is never reached -/
+theorem digest_depth_mismatch_counterexample :
+    differsFrom (fromState idealH true canonicalStream 0 [1, 2] exA) (fromState idealH true canonicalStream 1 [1, 2] exA) = true
+    ∧ divergentBuckets (fromState idealH true canonicalStream 0 [1, 2] exA) (fromState idealH true canonicalStream 1 [1, 2] exA) = [0, 1] := by
+  decide
+
+/-! ## what one round guarantees under ANY limit
+
+The code keeps no cursor between rounds, so nothing better than this can be said about a round
+whose limit is below the candidate population: each side is sent exactly the first `limit`
+candidates of the other side (in key order on the simulator path), those keys end merged, every
+other key is untouched — and the next round starts from the same prefix (the starvation finding). -/
+
+theorem getKeysInBuckets_keys_nodup (arr : Arrange) (harr : ArrOK arr) (H : Hasher) (vs : ValueStream) (depth limit : Nat)
+    (π : List Nat) (s : NMap RV) (div : List Nat) (hs : NMap.WF s) (hπ : ValidOrder π s) :
+    ((getKeysInBuckets arr H vs depth limit π s div).map (·.1)).Nodup := by
+  rw [getKeysInBuckets_eq_take]
+  have hp : ((arr (candidates H depth π s div)).map (·.1)).Nodup :=
+    (((harr (candidates H depth π s div)).map (·.1)).nodup_iff).mpr (candidates_keys_nodup div hs hπ)
+  exact List.Nodup.sublist ((List.take_sublist _ _).map _) hp
+
+/-- **C18 (one round, exactly)**: for every limit, every arrangement, every pair of iteration
+    orders: after `run_anti_entropy_sync` a key holds `merge(own, other's)` iff the OTHER side sent
+    it — i.e. iff it is among the first `limit` arranged candidates of the other side — and is
+    unchanged otherwise.  (With `limit ≥` population this is `sync_merges`.) -/
+theorem sync_round_exact (arr : Arrange) (harr : ArrOK arr) (H : Hasher) (sb : Bool) (vs : ValueStream) (depth limit : Nat)
+    (πa πb : List Nat) (a b : NMap RV) (ha : NMap.WF a) (hb : NMap.WF b) (hπa : ValidOrder πa a) (hπb : ValidOrder πb b)
+    (hd : differsFrom (fromState H sb vs depth πa a) (fromState H sb vs depth πb b) = true)
+    (hne : (divergentBuckets (fromState H sb vs depth πa a) (fromState H sb vs depth πb b)).isEmpty = false) (k : Nat) :
+    let div := divergentBuckets (fromState H sb vs depth πa a) (fromState H sb vs depth πb b)
+    let r := syncRoundWith arr H sb vs depth limit πa πb a b
+    NMap.get r.1 k = (match (getKeysInBuckets arr H vs depth limit πb b div).lookup k with
+                      | some v => some (mergeInto (NMap.get a k) v)
+                      | none => NMap.get a k)
+    ∧ NMap.get r.2 k = (match (getKeysInBuckets arr H vs depth limit πa a div).lookup k with
+                        | some v => some (mergeInto (NMap.get b k) v)
+                        | none => NMap.get b k) := by
+  intro div r
+  have hr : r = exchange arr H vs depth limit πa πb a b div := by
+    show syncRoundWith arr H sb vs depth limit πa πb a b = _
+    unfold syncRoundWith
+    simp only [hd, if_true]
+    have : (divergentBuckets (fromState H sb vs depth πa a) (fromState H sb vs depth πb b)).isEmpty = false := hne
+    simp [this, div]
+  rw [hr]
+  unfold exchange
+  simp only []
+  exact ⟨get_applyDeltas _ a k (getKeysInBuckets_keys_nodup arr harr H vs depth limit πb b div hb hπb),
+    get_applyDeltas _ b k (getKeysInBuckets_keys_nodup arr harr H vs depth limit πa a div ha hπa)⟩
+
+/-! ## the protocol as a state machine: late, duplicated and concurrent messages
+
+`AE.Mgr` models `AntiEntropyManager` with its bookkeeping; digests, requests and responses are
+values that may be processed at any later time.  What the protocol guarantees then: -/
+
+theorem response_sublist_iter (ord : RespOrder) (H : Hasher) (vs : ValueStream) (depth limit : Nat) (π : List Nat)
+    (s : NMap RV) (req : Option (List Nat)) : (responseKeysWith ord H vs depth limit π s req).Sublist (iter π s) := by
+  cases req with
+  | none => exact List.take_sublist _ _
+  | some bs =>
+    cases ord <;> simp only [responseKeysWith]
+    · exact (List.take_sublist _ _).trans List.filter_sublist
+    · exact List.filter_sublist.trans (List.take_sublist _ _)
+
+/-- a response never answers a key twice -/
+theorem response_keys_nodup (ord : RespOrder) (H : Hasher) (vs : ValueStream) (depth limit : Nat) (π : List Nat)
+    (s : NMap RV) (req : Option (List Nat)) (hs : NMap.WF s) (hπ : ValidOrder π s) :
+    ((responseKeysWith ord H vs depth limit π s req).map (·.1)).Nodup :=
+  List.Nodup.sublist ((response_sublist_iter ord H vs depth limit π s req).map _) (iter_keys_nodup hs hπ)
+
+/-- **C18 (a late answer is safe)**: the response to ANY request (built from digests of
+    arbitrarily old states, for a bucket list or the full state) consists of entries of the
+    responder's CURRENT state, and merging it into ANY requester state `r₁` — the state at merge
+    time, not the one the digest was computed from — leaves `merge(r₁[k], answered[k])` on every
+    answered key and every other key untouched: a write made between digest and transfer is
+    never rolled back or skipped. -/
+theorem stale_pull_merges (H : Hasher) (m : Mgr) (req : Request) (πp : List Nat) (p r₁ : NMap RV)
+    (hp : NMap.WF p) (hπ : ValidOrder πp p) (k : Nat) :
+    (∀ q ∈ (m.handleSyncRequest H req πp p).2.deltas, NMap.get p q.1 = some q.2)
+    ∧ NMap.get (applyDeltas r₁ (m.handleSyncRequest H req πp p).2.deltas) k
+        = (match (m.handleSyncRequest H req πp p).2.deltas.lookup k with
+           | some v => some (mergeInto (NMap.get r₁ k) v)
+           | none => NMap.get r₁ k) := by
+  have hdl : (m.handleSyncRequest H req πp p).2.deltas
+      = responseKeysWith currentRespOrder H currentStream (effectiveDepth currentDepthBound m.depth)
+          (effectiveLimit currentLimitAtLeastOne m.limit) πp p req.buckets := rfl
+  rw [hdl]
+  constructor
+  · intro q hq
+    exact mem_iter ((response_sublist_iter _ _ _ _ _ _ _ _).subset hq)
+  · exact get_applyDeltas _ r₁ k (response_keys_nodup _ _ _ _ _ _ _ _ hp hπ)
+
+/-- merging `v` a second time changes nothing -/
+def Absorbs (r : NMap RV) (ds : List (Nat × RV)) : Prop :=
+  ∀ q ∈ ds, RV.merge (mergeInto (NMap.get r q.1) q.2) q.2 = mergeInto (NMap.get r q.1) q.2
+
+instance (r : NMap RV) (ds : List (Nat × RV)) : Decidable (Absorbs r ds) := by unfold Absorbs; infer_instance
+
+/-- … which is the case for well-formed values of one kind (C07: idempotent, associative within a kind) -/
+theorem absorbs_of_samekind (r : NMap RV) (ds : List (Nat × RV))
+    (h : ∀ q ∈ ds, q.2.WF ∧ ∀ u, NMap.get r q.1 = some u → u.WF ∧ u.crdt.kind = q.2.crdt.kind) : Absorbs r ds := by
+  intro q hq
+  obtain ⟨hw, hu⟩ := h q hq
+  unfold mergeInto
+  cases hg : NMap.get r q.1 with
+  | none => exact C07.rv_merge_idem q.2 hw
+  | some u =>
+    obtain ⟨huw, hk⟩ := hu u hg
+    simp only []
+    rw [← C07.rv_merge_assoc_partial u q.2 q.2 huw hw hw ⟨hk, rfl⟩, C07.rv_merge_idem q.2 hw]
+
+/-- **C18 (a duplicated answer is harmless), partial**: applying the same response twice equals
+    applying it once, provided re-merging an answered value is absorbed (`Absorbs`; true for
+    well-formed same-kind values, `absorbs_of_samekind`; cross-kind pairs are C07's known
+    non-associativity) -/
+theorem duplicate_response_idempotent_partial (r : NMap RV) (ds : List (Nat × RV)) (hr : NMap.WF r)
+    (hn : (ds.map (·.1)).Nodup) (ha : Absorbs r ds) :
+    applyDeltas (applyDeltas r ds) ds = applyDeltas r ds := by
+  apply NMap.ext (wf_applyDeltas _ (wf_applyDeltas _ hr)) (wf_applyDeltas _ hr)
+  intro k
+  rw [get_applyDeltas ds _ k hn, get_applyDeltas ds r k hn]
+  cases hl : ds.lookup k with
+  | none => rfl
+  | some v =>
+    simp only []
+    have hmem : (k, v) ∈ ds := by
+      have := List.lookup_eq_some_iff.mp hl
+      obtain ⟨l1, l2, rfl, _⟩ := this
+      simp
+    have := ha (k, v) hmem
+    simp only [mergeInto] at this ⊢
+    cases hg : NMap.get r k with
+    | none => rw [hg] at this; simp only [] at this ⊢; rw [this]
+    | some u => rw [hg] at this; simp only [] at this ⊢; rw [this]
+
+/-- **C18 (the verdict of `process_peer_digest`)**: with an ideal byte hash, two managers of the
+    same configured depth: the peer is reported (and marked) divergent iff the two states differ —
+    whatever generations / replica ids the digests carry, whatever the iteration orders -/
+theorem mgr_verdict_iff_states_differ (sip : List Nat → Nat) (hsip : SipIdeal sip) (m mp : Mgr) (hd : m.depth = mp.depth)
+    (π π' : List Nat) (s t : NMap RV) (hs : NMap.WF s) (ht : NMap.WF t)
+    (vs : ValuesOK HB.keyStr s) (vt : ValuesOK HB.keyStr t) (hπ : ValidOrder π s) (hπ' : ValidOrder π' t) :
+    let ours := m.generateDigest (sipHasher sip HB.keyStr) π s
+    let theirs := mp.generateDigest (sipHasher sip HB.keyStr) π' t
+    ((m.processPeerDigest theirs ours).2.isSome = true ↔ s ≠ t)
+    ∧ (mp.rid ∈ (m.processPeerDigest theirs ours).1.divergentPeers ↔ s ≠ t) := by
+  intro ours theirs
+  have key := digest_iff_state_eq_current sip hsip (effectiveDepth currentDepthBound m.depth) π π' s t hs ht vs vt hπ hπ'
+  have hdf : differsFrom ours.d theirs.d = false ↔ s = t := by
+    show differsFrom (digest _ _ π s) (digest _ (effectiveDepth currentDepthBound mp.depth) π' t) = false ↔ s = t
+    rw [← hd]; exact key
+  unfold Mgr.processPeerDigest
+  cases hdd : differsFrom ours.d theirs.d with
+  | true =>
+    have hne : s ≠ t := fun h => by rw [hdf.mpr h] at hdd; cases hdd
+    simp only [if_true, Option.isSome_some, true_iff]
+    exact ⟨hne, ⟨fun _ => hne, fun _ => Ring.nset_mem_insert.mpr (Or.inl rfl)⟩⟩
+  | false =>
+    have heq : s = t := hdf.mp hdd
+    simp only [Bool.false_eq_true, if_false, Option.isSome_none]
+    refine ⟨⟨fun h => absurd h (by decide), fun h => absurd heq h⟩, ⟨fun h => ?_, fun h => absurd heq h⟩⟩
+    rw [List.mem_filter] at h
+    have := h.2
+    simp at this
+    exact absurd rfl this
+
+/-- **C18 (`should_sync` after a request)**: once a request to `peer` was created at time `now`,
+    a sync is due again exactly from `now + sync_interval_ms` on (no clock underflow for `t ≥ now`) -/
+theorem should_sync_after_request (m : Mgr) (peer : Nat) (ours : TDigest) (bs : Option (List Nat)) (now t : Nat)
+    (ht : now ≤ t) :
+    (m.createSyncRequest peer ours bs now).1.shouldSync peer t = if t - now ≥ m.interval then .yes else .no := by
+  unfold Mgr.createSyncRequest Mgr.shouldSync
+  simp only [NMap.get_insert, if_true, dueAt]
+  rw [if_neg (by omega)]
+
 /-! ## non-vacuity -/
 
 -- the hypotheses of the theorems above are satisfiable by non-trivial values
@@ -816,6 +1102,24 @@ example : Ideal idealH := ideal_idealH
 
 example : NMap.WF exA ∧ LwwOnly exA ∧ ValidOrder [2, 1] exA ∧ proj canonicalStream exA ≠ proj canonicalStream stA
     ∧ fromState idealH true canonicalStream 0 [1, 2] exA = fromState idealH true canonicalStream 0 [2, 1] exA := by
+  decide
+
+-- the byte-level hypotheses are satisfiable by a non-trivial state: a hash with two fields, a set
+-- with two elements of different lengths (sorted by bytes, not by code), a plain register
+def exBytes : NMap RV :=
+  [(HB.code [107], { crdt := .hash [(HB.code [102], ⟨some [49], ⟨1, 1⟩, false⟩), (HB.code [97, 98], ⟨none, ⟨2, 1⟩, true⟩)],
+                     vc := some [(1, 2)], expiry := some 5000, ts := ⟨2, 1⟩, rf := some 3 }),
+   (HB.code [107, 50], { crdt := .gset [HB.code [122], HB.code [97, 98]], vc := none, expiry := none, ts := ⟨1, 2⟩, rf := none }),
+   (HB.code [107, 51], RV.withValue [0, 255] ⟨3, 1⟩)]
+
+example : NMap.WF exBytes ∧ ValuesOK HB.keyStr exBytes ∧ ValidOrder [HB.code [107, 51], HB.code [107], HB.code [107, 50]] exBytes
+    ∧ SipIdeal idealSip := by
+  refine ⟨by decide, by decide, by decide, sipIdeal_idealSip⟩
+
+-- a duplicated answer that is absorbed (same kind), applied to a state that already changed
+example : Absorbs stA [(2, exY')] ∧ ((([(2, exY')] : List (Nat × RV)).map (·.1)).Nodup)
+    ∧ applyDeltas (applyDeltas stA [(2, exY')]) [(2, exY')] = applyDeltas stA [(2, exY')]
+    ∧ applyDeltas stA [(2, exY')] = stB := by
   decide
 
 -- a sync with limit ≥ population: key 2 diverges, both sides end with the merge
